@@ -59,13 +59,46 @@ def run(ck):
     ctx = [st.pcz()]
     ck.witness('forward returns', eng, *ctx)
     def case(m):
-        return dict(params=[model_float(m, pv[n]) for n in PNAMES], off=[model_float(m, o) for o in off], sign=[round(model_float(m, s_)) or 1.0 for s_ in sg],
-                    joints=[angle_of(m, sc[i], sg[i], off[i]) for i in range(6)])
-    def angle_of(m, pair, s_, o):
+        """concrete robot + joint vector from a solver model: the model fixes (sin, cos) of every angle term the code took a sine/cosine of;
+        joints and offsets are recovered by solving sin(t_k(j,off)) = s_k, cos(t_k(j,off)) = c_k numerically (witness extraction only)"""
         import math
-        sv, cv = model_float(m, pair[0]), model_float(m, pair[1]); qv = math.atan2(sv, cv)
-        sgn = round(model_float(m, s_)) or 1.0
-        return (qv + model_float(m, o)) / sgn
+        import numpy as np
+        from scipy.optimize import least_squares
+        sgv = [float(round(model_float(m, s_)) or 1.0) for s_ in sg]
+        xs = list(j) + list(off)
+        forms = []
+        for key, (sv, cv) in eng.trig.pairs.items():
+            t = eng.trig.pair_terms[key]
+            fv = free_names(t)
+            if not fv <= {v.decl().name() for v in xs + sg}: continue          # atan2/acos results etc.: not functions of the joints alone
+            def ev(vals):
+                sub = [(x, RV(float(v))) for x, v in zip(xs, vals)] + [(s_, RV(v)) for s_, v in zip(sg, sgv)]
+                r = z3.simplify(z3.substitute(t, *sub))
+                return float(r.as_fraction()) if z3.is_rational_value(r) else float('nan')
+            c0 = ev([0.0] * 12); co = [ev([1.0 if i == k else 0.0 for i in range(12)]) - c0 for k in range(12)]
+            forms.append((c0, co, model_float(m, sv), model_float(m, cv)))
+        def resid(x):
+            out = []
+            for c0, co, s_, c_ in forms:
+                a = c0 + sum(ci * xi for ci, xi in zip(co, x)); out += [math.sin(a) - s_, math.cos(a) - c_]
+            return out
+        best = None
+        for trial in range(6):
+            x0 = np.array([ck.rng.uniform(-3, 3) for _ in range(12)])
+            r = least_squares(resid, x0)
+            if best is None or r.cost < best.cost: best = r
+            if best.cost < 1e-18: break
+        x = list(best.x) if best is not None else [0.0] * 12
+        return dict(params=[model_float(m, pv[n]) for n in PNAMES], off=[float(v) for v in x[6:]], sign=sgv, joints=[float(v) for v in x[:6]], fit_cost=float(best.cost) if best is not None else -1.0)
+    def free_names(t):
+        acc = set(); todo = [t]; seen = set()
+        while todo:
+            u = todo.pop()
+            if u.get_id() in seen: continue
+            seen.add(u.get_id())
+            if z3.is_const(u) and u.decl().kind() == z3.Z3_OP_UNINTERPRETED: acc.add(u.decl().name())
+            todo += u.children()
+        return acc
     n_id = [0, 0]
     def identity(name, lhs, rhs):
         """lhs, rhs z3 reals; normalise the difference, let the solver decide the residual"""
